@@ -4,6 +4,8 @@ import (
 	"fmt"
 	"strconv"
 	"strings"
+
+	"github.com/nyaruka/goflow/excellent"
 )
 
 // migrates a parameter value in an legacy expression
@@ -46,8 +48,48 @@ func asTemplate(template string) callMigrator {
 // migrates a function call by joining its parameters with the given delimiter
 func asJoin(delimiter string) callMigrator {
 	return func(funcName string, params []string) (string, error) {
-		return strings.Join(params, delimiter), nil
+		return strings.Join(groupAll(params), delimiter), nil
 	}
+}
+
+// migrates a function call using a template in which the params become operands of operators
+func asOperands(template string) callMigrator {
+	asTpl := asTemplate(template)
+
+	return func(funcName string, params []string) (string, error) {
+		return asTpl(funcName, groupAll(params))
+	}
+}
+
+// puts parentheses around the given migrated expression if it needs them to keep its grouping when used as an operand
+func group(expression string) string {
+	if isCompound(expression) {
+		return "(" + expression + ")"
+	}
+	return expression
+}
+
+func groupAll(expressions []string) []string {
+	grouped := make([]string, len(expressions))
+	for i := range expressions {
+		grouped[i] = group(expressions[i])
+	}
+	return grouped
+}
+
+// whether the given migrated expression is an application of an operator rather than a literal, reference, call etc
+func isCompound(expression string) bool {
+	parsed, err := excellent.Parse(expression, nil)
+	if err != nil {
+		return false
+	}
+
+	switch parsed.(type) {
+	case *excellent.ContextReference, *excellent.DotLookup, *excellent.ArrayLookup, *excellent.FunctionCall, *excellent.Parentheses,
+		*excellent.TextLiteral, *excellent.NumberLiteral, *excellent.BooleanLiteral, *excellent.NullLiteral:
+		return false
+	}
+	return true
 }
 
 // migrates a function call using migrators for each parameter
@@ -93,7 +135,7 @@ func paramDecremented() paramMigrator {
 		}
 
 		// if not return a decrementing expression
-		return fmt.Sprintf("%s - 1", param)
+		return fmt.Sprintf("%s - 1", group(param))
 	}
 }
 
@@ -122,7 +164,7 @@ var callMigrators = map[string]callMigrator{
 	"days":              asTemplate(`datetime_diff(%[2]s, %[1]s, "D")`),
 	"edate":             asTemplate(`datetime_add(%s, %s, "M")`),
 	"epoch":             asIs(),
-	"exp":               asTemplate(`2.718281828459045 ^ %s`),
+	"exp":               asOperands(`2.718281828459045 ^ %s`),
 	"false":             asTemplate(`false`), // becomes just a keyword
 	"field":             asParamMigrators(`field`, paramAsIs(), paramDecremented(), paramAsIs()),
 	"first_word":        asTemplate(`word(%s, 0)`),
@@ -143,7 +185,7 @@ var callMigrators = map[string]callMigrator{
 	"now":               asIs(),
 	"or":                asIs(),
 	"percent":           asIs(),
-	"power":             asTemplate(`%s ^ %s`),
+	"power":             asOperands(`%s ^ %s`),
 	"proper":            asRename(`title`),
 	"rand":              asIs(),
 	"randbetween":       asRename(`rand_between`),
@@ -151,7 +193,7 @@ var callMigrators = map[string]callMigrator{
 	"regex_group":       asRename(`regex_match`),
 	"remove_first_word": asIs(),
 	"rept":              asRename(`repeat`),
-	"right":             asTemplate(`text_slice(%[1]s, -%[2]s)`),
+	"right":             asOperands(`text_slice(%[1]s, -%[2]s)`),
 	"round":             asIs(),
 	"rounddown":         asRename(`round_down`),
 	"roundup":           asRename(`round_up`),
